@@ -25,6 +25,9 @@ MODELS = {
                       names={'inp': 'Sheet1!$B$1'}, inputs=['A1', 'B1']),
     'sheets': dict(cells={'Sheet1!A1': 4, 'Data!A1': 10, 'Data!B1': '=A1*2', 'Sheet1!B1': '=Data!B1+A1', 'Sheet1!C1': '=B1+Data!A1'},
                    names={'inp': 'Data!$A$1'}, inputs=['Sheet1!A1', 'Data!A1']),
+    # a formula whose own result is an array (=A1:A3) next to readers of the cells below it: evaluation must not write neighbours
+    'arrayresult': dict(cells={'A1': 1, 'A2': 2, 'A3': 3, 'C1': '=A1:A3', 'D1': '=C2', 'D2': '=ISBLANK(C2)', 'D3': '=SUM(C3:C4)+A1'},
+                        names={'inp': 'Sheet1!$A$1'}, inputs=['A1']),
     # a range of 150 rows of which only the first three are used when it is first evaluated; A140 gets its first value later
     'growing': dict(cells={'A1': 1, 'A2': 2, 'A3': 3, 'C1': '=SUM(A1:A150)', 'D1': '=COUNT(A1:A150)', 'E1': '=C1*10'},
                     names={'inp': 'Sheet1!$A$1'}, inputs=['A1'], late=['A140']),
@@ -52,6 +55,7 @@ def ops_for(m):
         for e in (0, 1):
             ops.append(('eval', full(c), e))
     ops.append(('get', full(list(spec['cells'])[-1]), 0))
+    ops.append(('getname', 'inp', 0))
     return ops
 
 
@@ -134,6 +138,11 @@ def oracle_history(c):
                 if not _same(stored, exp):
                     return False, f'step {step}: stored value of {op[1]} == {exp}', stored
                 last[op[1]] = exp
+            elif op[0] == 'getname':
+                obs = observe(evs[0].get_cell_value(op[1]))
+                exp = observe(inputs[name_target])
+                if not _same(obs, exp):
+                    return False, f'step {step}: get_cell_value({op[1]!r}) == the last value set for {name_target} ({exp})', obs
             elif op[0] == 'get':
                 obs = observe(evs[0].get_cell_value(op[1]))
                 if op[1] in last and not _same(obs, last[op[1]]):
